@@ -285,7 +285,7 @@ type c47DB struct {
 	mu    sync.Mutex
 	viol  []string
 	notes map[string]int
-	puts  int
+	puts  atomic.Int64
 }
 
 func (d *c47DB) violation(format string, a ...any) {
@@ -323,9 +323,7 @@ func c47FromHealer() bool {
 // check judges one write reaching the store.
 func (d *c47DB) check(key, val []byte) {
 	s := d.state
-	d.mu.Lock()
-	d.puts++
-	d.mu.Unlock()
+	d.puts.Add(1)
 	switch {
 	case len(key) == 33 && key[0] == 'a':
 		a := s.byHash[common.BytesToHash(key[1:])]
@@ -1041,12 +1039,13 @@ type c47Outcome struct {
 // c47Sync runs one Sync cycle with a progress watchdog. A stall (no request served
 // for stallAfter, or the total bound reached) cancels the cycle and is reported as
 // such, never as a verdict.
-func c47Sync(syncFn func(cancel chan struct{}) error, dump func() string, run *c47Run, bound time.Duration) c47Outcome {
+func c47Sync(syncFn func(cancel chan struct{}) error, dump func() string, run *c47Run, wdb *c47DB, bound time.Duration) c47Outcome {
+	progress := func() int64 { return run.served.Load() + wdb.puts.Load() }
 	done := make(chan error, 1)
 	go func() { done <- syncFn(run.cancel) }()
 	var (
 		deadline   = time.Now().Add(bound)
-		lastServed = run.served.Load()
+		lastServed = progress()
 		lastMove   = time.Now()
 		tick       = time.NewTicker(50 * time.Millisecond)
 	)
@@ -1056,7 +1055,7 @@ func c47Sync(syncFn func(cancel chan struct{}) error, dump func() string, run *c
 		case err := <-done:
 			return c47Outcome{err: err}
 		case <-tick.C:
-			if n := run.served.Load(); n != lastServed {
+			if n := progress(); n != lastServed {
 				lastServed, lastMove = n, time.Now()
 			}
 			if time.Now().After(deadline) || time.Since(lastMove) > 90*time.Second {
@@ -1078,35 +1077,10 @@ func c47DumpSyncer(s *syncer) string {
 	var sb strings.Builder
 	s.lock.RLock()
 	defer s.lock.RUnlock()
-	fmt.Fprintf(&sb, "syncer: snapped=%v tasks=%d peers=%d stateless=%v\n idlers: acc=%v sto=%v code=%v heal=%v healcode=%v\n reqs: acc=%d sto=%d code=%d heal=%d healcode=%d\n",
-		s.snapped, len(s.tasks), len(s.peers), s.statelessPeers, s.accountIdlers, s.storageIdlers, s.bytecodeIdlers, s.trienodeHealIdlers, s.bytecodeHealIdlers,
+	// only fields guarded by s.lock: the cycle may still be running (slow, not stuck)
+	fmt.Fprintf(&sb, "syncer: snapped=%v peers=%d stateless=%v\n idlers: acc=%v sto=%v code=%v heal=%v healcode=%v\n reqs: acc=%d sto=%d code=%d heal=%d healcode=%d\n",
+		s.snapped, len(s.peers), s.statelessPeers, s.accountIdlers, s.storageIdlers, s.bytecodeIdlers, s.trienodeHealIdlers, s.bytecodeHealIdlers,
 		len(s.accountReqs), len(s.storageReqs), len(s.bytecodeReqs), len(s.trienodeHealReqs), len(s.bytecodeHealReqs))
-	if s.healer != nil {
-		fmt.Fprintf(&sb, " healer: pending=%d trieTasks=%d codeTasks=%d throttle=%v pend=%d\n", s.healer.scheduler.Pending(), len(s.healer.trieTasks), len(s.healer.codeTasks), s.trienodeHealThrottle, s.trienodeHealPend.Load())
-	}
-	for i, t := range s.tasks {
-		fmt.Fprintf(&sb, " task %d: next=%x last=%x req=%v res=%v pend=%d done=%v codeTasks=%d stateTasks=%d subTasks=%d stateCompleted=%d\n", i, t.Next[:4], t.Last[:4], t.req != nil, t.res != nil, t.pend, t.done, len(t.codeTasks), len(t.stateTasks), len(t.SubTasks), len(t.stateCompleted))
-		if t.res != nil {
-			nc, ns, nh := 0, 0, 0
-			for j := range t.res.hashes {
-				if t.needCode[j] {
-					nc++
-				}
-				if t.needState[j] {
-					ns++
-				}
-				if t.needHeal[j] {
-					nh++
-				}
-			}
-			fmt.Fprintf(&sb, "   res: %d accounts cont=%v needCode=%d needState=%d needHeal=%d\n", len(t.res.hashes), t.res.cont, nc, ns, nh)
-		}
-		for acc, subs := range t.SubTasks {
-			for _, st := range subs {
-				fmt.Fprintf(&sb, "   subtask %x: next=%x last=%x req=%v done=%v\n", acc[:4], st.Next[:4], st.Last[:4], st.req != nil, st.done)
-			}
-		}
-	}
 	return sb.String()
 }
 
@@ -1272,7 +1246,7 @@ func TestVerifC47SyncV1(t *testing.T) {
 			rt.Fatalf("%s\n  state: %+v root=%x\n  peers: %s\n  served=%d rejected=%d(acc %d sto %d code %d node %d) tampered=%d chunked-storage-requests=%d heal-requests=%d db-puts=%d",
 				fmt.Sprintf(format, a...), sh, state.root, desc, run.served.Load(), run.rejected.Load(),
 				run.rejectedBy[0].Load(), run.rejectedBy[1].Load(), run.rejectedBy[2].Load(), run.rejectedBy[3].Load(),
-				run.tampered.Load(), run.chunked.Load(), run.healReqs.Load(), wdb.puts)
+				run.tampered.Load(), run.chunked.Load(), run.healReqs.Load(), wdb.puts.Load())
 		}
 		barrier := func() {
 			wdb.mu.Lock()
@@ -1296,7 +1270,7 @@ func TestVerifC47SyncV1(t *testing.T) {
 			// nothing but invalid data on offer: the sync must not complete; stop it after a
 			// number of served requests
 			run.cancelAt = int64(rapid.IntRange(20, 120).Draw(rt, "badRequests"))
-			out := c47Sync(func(c chan struct{}) error { return sy.Sync(state.root, c) }, func() string { return c47DumpSyncer(sy) }, run, 3*time.Minute)
+			out := c47Sync(func(c chan struct{}) error { return sy.Sync(state.root, c) }, func() string { return c47DumpSyncer(sy) }, run, wdb, 3*time.Minute)
 			barrier()
 			if out.err == nil {
 				if err := c47Compare(inner, state); err != nil {
@@ -1309,7 +1283,7 @@ func TestVerifC47SyncV1(t *testing.T) {
 			return
 		}
 
-		out := c47Sync(func(c chan struct{}) error { return sy.Sync(state.root, c) }, func() string { return c47DumpSyncer(sy) }, run, 6*time.Minute)
+		out := c47Sync(func(c chan struct{}) error { return sy.Sync(state.root, c) }, func() string { return c47DumpSyncer(sy) }, run, wdb, 6*time.Minute)
 		restarted := false
 		if out.stalled {
 			stalled("first-cycle")
@@ -1331,7 +1305,7 @@ func TestVerifC47SyncV1(t *testing.T) {
 				sy2.Register(p)
 				p.remote = sy2
 			}
-			out = c47Sync(func(c chan struct{}) error { return sy2.Sync(state.root, c) }, func() string { return c47DumpSyncer(sy2) }, run2, 6*time.Minute)
+			out = c47Sync(func(c chan struct{}) error { return sy2.Sync(state.root, c) }, func() string { return c47DumpSyncer(sy2) }, run2, wdb, 6*time.Minute)
 			run.served.Add(run2.served.Load())
 			run.rejected.Add(run2.rejected.Load())
 			run.tampered.Add(run2.tampered.Load())
@@ -1400,8 +1374,8 @@ func TestVerifC47SyncV1(t *testing.T) {
 func c47DumpSyncerV2(s *syncerV2) string {
 	s.lock.RLock()
 	defer s.lock.RUnlock()
-	return fmt.Sprintf("syncerV2: phase=%d tasks=%d peers=%d stateless=%v idlers: acc=%v sto=%v code=%v reqs: acc=%d sto=%d code=%d",
-		s.getPhase(), len(s.tasks), len(s.peers), s.statelessPeers, s.accountIdlers, s.storageIdlers, s.bytecodeIdlers,
+	return fmt.Sprintf("syncerV2: phase=%d peers=%d stateless=%v idlers: acc=%v sto=%v code=%v reqs: acc=%d sto=%d code=%d",
+		s.getPhase(), len(s.peers), s.statelessPeers, s.accountIdlers, s.storageIdlers, s.bytecodeIdlers,
 		len(s.accountReqs), len(s.storageReqs), len(s.bytecodeReqs))
 }
 
@@ -1475,7 +1449,7 @@ func TestVerifC47SyncV2(t *testing.T) {
 				t.Fatalf("VERIF-INCONCLUSIVE: %d syncs stalled; wall-clock stalls are not a verdict", n)
 			}
 		}
-		out := c47Sync(func(cc chan struct{}) error { return sy.Sync(pivot, cc) }, func() string { return c47DumpSyncerV2(sy) }, run, 6*time.Minute)
+		out := c47Sync(func(cc chan struct{}) error { return sy.Sync(pivot, cc) }, func() string { return c47DumpSyncerV2(sy) }, run, wdb, 6*time.Minute)
 		restarted := false
 		if out.stalled {
 			stalled("first-cycle")
@@ -1489,7 +1463,7 @@ func TestVerifC47SyncV2(t *testing.T) {
 			restarted = true
 			run2 := &c47Run{state: state, cancel: make(chan struct{})}
 			sy2 := start("b", run2)
-			out = c47Sync(func(cc chan struct{}) error { return sy2.Sync(pivot, cc) }, func() string { return c47DumpSyncerV2(sy2) }, run2, 6*time.Minute)
+			out = c47Sync(func(cc chan struct{}) error { return sy2.Sync(pivot, cc) }, func() string { return c47DumpSyncerV2(sy2) }, run2, wdb, 6*time.Minute)
 			run.served.Add(run2.served.Load())
 			run.rejected.Add(run2.rejected.Load())
 			run.tampered.Add(run2.tampered.Load())
